@@ -202,6 +202,14 @@ def run(tier):
                 r = run_one(binp, src, td, 120)
                 evaluations += 1
                 results[(name, prof)] = [("unbounded", r)]
+            # long RUNS (not nesting): recursion per token of a run in the scanner or in the parser's error recovery
+            for name, n, src in (("run_comment_lines", 300000, "# c\n" * 300000 + "shout(1)\n"),
+                                 ("run_blank_lines", 300000, "\n \t\n" * 300000 + "shout(1)\n"),
+                                 ("run_stray_parens_in_block", 9000, "start\n" + ") " * 9000 + "\nend\n"),
+                                 ("run_stray_commas_in_block", 9000, "do f() start\n" + ", " * 9000 + "\nend\n")):
+                r = run_one(binp, src, td, 600)
+                evaluations += 1
+                results[(name, prof)] = [(n, r)]
             for n in ([3000, 30000] if q else [3000, 30000, 100000]):
                 for name, src in deep_data(n).items():
                     if (name, prof) in results and results[(name, prof)][-1][1].startswith("NATIVE"):
